@@ -314,6 +314,12 @@ def run_synthetic(case, ctx):
             if ff is not None:
                 cn = ff + G.pick(rng, [0, 0, 2 * need, 4 * need])
                 cn = min(max(cn, model.lo), model.hi)
+        if rng.random() < 0.06:
+            # a user-fixed centre that lies outside the slot range of the maps altogether (a typo, another band): it cannot
+            # be used as given, so the request is blocked
+            cn = model.index[-1] + rng.randint(1, 80) if rng.random() < 0.5 else model.index[0] - rng.randint(1, 80)
+            if kind in ('fixed-nm', 'fixed-n', 'multi', 'multi-free-tail', 'insufficient', 'multi-one-infeasible'):
+                ctx.count('fixed_centres_outside_the_maps')
         if kind == 'free':
             slots = [(None, None)]
         elif kind == 'fixed-nm':
